@@ -1,4 +1,5 @@
 import H3.Lemmas.C06Run
+import H3.Lemmas.C06Free
 import H3.Lemmas.C06Ctl
 import H3.Props.C04
 import H3.Props.C05
@@ -100,16 +101,50 @@ example : DocReach .client okHdr 9 .body
 example : (pollPhase .client okHdr 9 .body (pollPhase .client okHdr 9 .head
     (initSt [.chunk [0x01, 0x01, 0xaa, 0x00, 0x03, 0xb1]])).2).2.src.1.remaining = 2 := by decide +kernel
 
-/-- **Outside the documented pattern the model does say panic** (so the theorems above are not
-    vacuous in their hypothesis): HEADERS, DATA(4) with two payload bytes, FIN.  `recv_data`
-    fails with H3_FRAME_ERROR (the truncation, C02); calling `recv_trailers` *after that error*
-    reaches `poll_next` with `remaining_data = 4` and the `assert!` fires. -/
-theorem C06_panic_outside_pattern_witness :
+/-- **No panic on a request stream — ANY order of calls (no call-pattern hypothesis).**  After the
+    repair "recv_trailers answers an error instead of panicking while a DATA payload is outstanding"
+    `poll_recv_trailers` tests `has_data()` first, as `poll_recv_data` always did
+    (`pollRecvTrailersG`).  For EVERY state of a request stream — any buffered chunks, any transport
+    script behind them, any `remaining_data`, any saved trailers, any recorded error; that is:
+    whatever was called before, in whatever order, whatever it answered (errors included), whatever
+    arrived in between:
+    * `recv_data` does not panic (for every bound on its loop);
+    * `recv_trailers` does not panic;
+    * the message head (`resolve_request`, which consumes the resolver and so runs once, first;
+      `recv_response`, which the documentation wants called before `recv_data`) does not panic from
+      `remaining_data = 0`, i.e. as the first call;
+    * and the repair changes nothing inside the documented pattern: whenever `remaining_data = 0` —
+      in particular in every configuration the pattern reaches before `recv_trailers` (`DocReach …
+      .trailers`) — the repaired function is the function the other theorems (C03, C07, C01 and the
+      completion theorems below) are about. -/
+theorem C06_no_panic_any_call_order (role : Role) (H : Hdr) :
+    (∀ (N : Nat) (st : RSt), (pollRecvData fsSrc N st).1 ≠ .panic) ∧
+    (∀ st : RSt, (pollRecvTrailersG fsSrc H st).1 ≠ .panic) ∧
+    (∀ st : RSt, st.src.1.remaining = 0 → (pollHead role fsSrc H st).1 ≠ .panic) ∧
+    (∀ st : RSt, st.src.1.remaining = 0 → pollRecvTrailersG fsSrc H st = pollRecvTrailers fsSrc H st) ∧
+    (∀ (N : Nat) (st : RSt), DocReach role H N .trailers st →
+      pollRecvTrailersG fsSrc H st = (pollPhase role H N .trailers st)) :=
+  ⟨pollRecvData_never_panics, pollRecvTrailersG_never_panics H, pollHead_never_panics role H,
+   pollRecvTrailersG_eq H, fun _ st h => pollRecvTrailersG_eq H st (docReach_inv h).1⟩
+
+/-- **The guard is what keeps the `assert!` from firing** (the scenario that used to be the panic
+    outside the documented pattern): HEADERS, DATA(4) with two payload bytes, FIN.  `recv_data` fails
+    with H3_FRAME_ERROR (the truncation, C02) and leaves `remaining_data = 4`; the part of
+    `poll_recv_trailers` behind the guard would reach `poll_next` and its `assert!` (`panic` in the
+    model, as the code before the repair did); the repaired function answers
+    `StreamError{H3_FRAME_UNEXPECTED}`.  The same after a partly read body without any error. -/
+theorem C06_recv_trailers_guard_witness :
     (pollRecvData fsSrc 10 (pollHead .server fsSrc okHdr
       (initSt [.chunk [0x01, 0x01, 0xaa, 0x00, 0x04, 0xb1, 0xb2], .fin])).2).1 = .errConn 262 ∧
     (pollRecvTrailers fsSrc okHdr (pollRecvData fsSrc 10 (pollHead .server fsSrc okHdr
       (initSt [.chunk [0x01, 0x01, 0xaa, 0x00, 0x04, 0xb1, 0xb2], .fin])).2).2).1 = .panic ∧
-    nextPhase .body (.errConn 262) = none := by decide +kernel
+    (pollRecvTrailersG fsSrc okHdr (pollRecvData fsSrc 10 (pollHead .server fsSrc okHdr
+      (initSt [.chunk [0x01, 0x01, 0xaa, 0x00, 0x04, 0xb1, 0xb2], .fin])).2).2).1 = .errStream 261 ∧
+    (pollRecvData fsSrc 10 (pollHead .client fsSrc okHdr
+      (initSt [.chunk [0x01, 0x01, 0xaa, 0x00, 0x04, 0xb1, 0xb2]])).2).1 = .data [0xb1, 0xb2] ∧
+    (pollRecvTrailersG fsSrc okHdr (pollRecvData fsSrc 10 (pollHead .client fsSrc okHdr
+      (initSt [.chunk [0x01, 0x01, 0xaa, 0x00, 0x04, 0xb1, 0xb2]])).2).2).1 = .errStream 261 := by
+  decide +kernel
 
 /-! ## 2. Request streams: completion -/
 
